@@ -6,6 +6,13 @@ fragment layout x role x failure policy x header-only delivery (payload withheld
 the decompression cap with real zlib.  Every run is judged by the independent RFC oracle extended with the configured
 limits (ws_recv.rfc_judge / check_against_rfc) and by differential runs against the same stream without limits; the
 small cases are re-evaluated by the Gallina model inside coqc (event for event).
+
+Round 3: (a) configuration plumbing (base.config_plumbing: every option set alone / before / after / together with every
+other option / set back, both factories, protocol's effective option vector after a real handshake); (b) the three
+receive APIs, overridden as in the shipped examples, several messages per connection; (c, d) all message-level send
+APIs x over-limit / at-limit / legal payloads on one connection, with a peer that reads the octets written with one real
+inflater (judge_sends), and the Gallina send model (Model/WsSendGuard.v, theorems C16_send_refused_all_apis,
+C16_send_whole_or_nothing, C16_peer_reads_accepted) re-evaluated on every send case with the compressor replayed.
 """
 import json
 import os
@@ -53,6 +60,73 @@ def send_term(c, r):
     return f"({c['max_msg']}, {b(c['pmc'])}, [{ops}], [{obs}])"
 
 
+def send_fn(o):
+    return "sendMessage" if o["api"] == "message" else "sendPreparedMessage"
+
+
+def send_path(c, o):
+    return "plain" if not c["pmc"] else ("pmc+doNotCompress" if o["dnc"] else "pmc")
+
+
+def send_over(c, o):
+    """over the limit by construction: "noise" does not compress and is > 3 * limit; on the uncompressed path the length"""
+    return o["kind"] == "noise" or (o["len"] > c["max_msg"] and (not c["pmc"] or o["dnc"]))
+
+
+def brief_sends(r):
+    S = r["sends"]
+    return {"sends": {"ops": [dict(o, payload=o["payload"][:32] + "...") for o in S["ops"]],
+                      "peer": [[p[0][:32] + "...", len(p[0]) // 2, p[1]] for p in S["peer"]], "peer_error": S["peer_error"]},
+            "state": r["state"]}
+
+
+def judge_sends(fw, c, r):
+    """the send oracle: every over-limit operation raises PayloadExceededError and writes nothing, every other one is
+    written, and the peer (independent frame parser + ONE real zlib inflater for the connection, in the driver) reads
+    exactly the accepted payloads.  Returns [(key, what)]."""
+    L, S = c["max_msg"], r["sends"]
+    head = f"[{fw}] {c['role']}, maxMessagePayloadSize={L}, permessage-deflate {'on' if c['pmc'] else 'off'}: "
+    out, want_peer, refused_before = [], [], []
+    for j, (o, got) in enumerate(zip(c["sends"], S["ops"])):
+        over, fn, path = send_over(c, o), send_fn(o), send_path(c, o)
+        what = None
+        if over and got["raised"] is None:
+            what = "over-limit-not-refused"
+        elif over and got["wrote"]:
+            what = "refused-but-wrote"
+        elif got["raised"] == "PayloadExceededError" and not over:
+            what = "legal-refused"
+        elif got["raised"] is not None and got["raised"] != "PayloadExceededError":
+            what = "raised-" + got["raised"]
+        elif not over and not got["wrote"]:
+            what = "legal-not-written"
+        if what:
+            out.append((f"send-api/{fn}/{path}/{what}",
+                        head + f"operation {j} {fn}({o['len']} octets, {o['kind']}{', doNotCompress' if o['dnc'] else ''}"
+                        f"{', fragmentSize=%d' % o['fragment'] if o['fragment'] else ''}) -> raised {got['raised']}, wrote {got['wrote']} octets "
+                        f"(compressor output {got['comp_len']})"))
+        if over:
+            refused_before.append((j, fn, path))
+        else:
+            want_peer.append((got["payload"], bool(o["binary"]), j, len(refused_before)))
+    if out:
+        return out
+    got_peer = [(p[0], bool(p[1])) for p in S["peer"]]
+    k = next((k for k, (w, g) in enumerate(zip(want_peer, got_peer)) if (w[0], w[1]) != g), min(len(want_peer), len(got_peer)))
+    if S["peer_error"] or len(got_peer) != len(want_peer) or k < len(want_peer):
+        nref = want_peer[k][3] if k < len(want_peer) else len(refused_before)
+        if nref:
+            _, fn, path = refused_before[nref - 1]
+            key = f"send-api/{fn}/{path}/peer-cannot-read-after-refusal"
+        else:
+            o = c["sends"][want_peer[k][2]] if k < len(want_peer) else c["sends"][0]
+            key = f"send-api/{send_fn(o)}/{send_path(c, o)}/peer-reads-wrong"
+        out.append((key, head + f"the peer (independent frame parser + one real zlib inflater for the connection) reads {len(got_peer)} message(s) "
+                    f"of the {len(want_peer)} accepted ones; the first {k} are right, then: {S['peer_error'] or 'a different payload'}"
+                    + (f" -- right after operation {refused_before[nref - 1][0]} was refused with PayloadExceededError" if nref else "")))
+    return out
+
+
 def header_len(frame):
     b1 = frame[1]
     l7 = b1 & 127
@@ -84,11 +158,28 @@ def run(ck):
         "maxMessagePayloadSize / maxFramePayloadSize bound the payload octets on the wire (for a compressed message: the "
         "compressed size); the inflated size is bounded only by PerMessageDeflate max_message_size (C16_decompress_cap)",
         "independent oracle: ws_recv.rfc_judge with the configured limits + differential run without limits + real zlib",
+        "send side: the compressor is an oracle (Section variable with the context-takeover laws deflate_laws in "
+        "C16_peer_reads_accepted; a toy pair inhabits them; the real zlib pair in the correspondence runs: the driver's peer "
+        "inflates everything written with one zlib.decompressobj(-15)); fragmentation of what is written is not modelled",
+        "frame-wise sending (beginMessage / sendMessageFrame / endMessage) has no message-size guard at all: observed "
+        "(histogram send-api:frame-wise-over-limit), not judged -- the message size is not known when the frames go out",
+        "observed, not judged (candidate reported to the integrator): an application overriding onMessageFrameData / "
+        "onMessageFrame / onMessageEnd without chaining (as the shipped examples do) keeps being called after a 1009 "
+        "failure under failByDrop=False, because the failedByMe guards live in the base-class hooks (histogram "
+        "recv-api:*:app-hooks-called-after-1009)",
+        "configuration plumbing judges the options the C02/C16 models read; a wrong effective value of another option is "
+        "counted only (histogram config_other_option_differs:*; on the unchanged tree: server allowNullOrigin is reset to "
+        "False by every setProtocolOptions call -- keyword default False instead of None)",
     ]
     ck.rule.append("grid limit {1,125,126,65535,65536} x {message limit, frame limit, both set in one setProtocolOptions call (equal / either smaller)} x "
                    "{OPEN, CLOSING after a local sendClose()} x size {limit-1,limit,limit+1,10*limit} x 5 fragment "
                    "layouts x role x failure policy x (whole stream | headers only up to the offending frame | 2 random cuts) x "
-                   "framework; sendMessage at limit-1/limit/limit+1; compressed messages around a decompression cap with real zlib. "
+                   "framework; sendMessage at limit-1/limit/limit+1; compressed messages around a decompression cap with real zlib; "
+                   "configuration plumbing (each option alone / then another / after another / with another in one call / set back / all, both "
+                   "factories); receive API {onMessage, frame-based, streaming} x {3-4 messages per connection: sum over the limit, each at "
+                   "the limit, mixed, then one over} x fragmentation x limit kind x role x policy x configuration style x (whole | cuts | burst); "
+                   "send API {sendMessage, +fragmentSize, +doNotCompress, sendPreparedMessage, +doNotCompress} x deflate on/off x limit "
+                   "{60,126,1000} x role, 7-8 operations per connection (legal, over, legal, legal, at-limit, [limit+1], over, legal). "
                    "non-trivial = a data frame header reaches onMessageFrameBegin with a limit configured; distinct = distinct "
                    "(configuration, stream, segmentation)")
     gen_ok = base.regenerate(ck)
@@ -388,14 +479,14 @@ def run(ck):
                     continue
                 if probe and ("msg-after-violation" in key or "oversize-delivery" in key):
                     continue
-                ck.violation(f"recv-api/{m['api']}/{m['kind']}/" + key,
+                ck.violation(key if key.startswith("config/") else f"recv-api/{m['api']}/" + key,
                              f"[{fw}] application uses the {m['api']} receive API, limits msg={c['max_msg']} frame={c['max_frame']} "
                              f"({c.get('config_style') or 'one setProtocolOptions call'}), {len(m['sizes'])} messages of sizes {m['sizes']}"
                              f"{' (two fragments each)' if m['frag'] else ''}, {m['variant']}: {what}",
                              {"fw": fw, "case": c, "observed": r, "grid": m}, found_input=True)
             failed = any(e[0] == "drop" for e in r["events"]) or any(e[0] == "sendclose" and e[1] == 1009 for e in r["events"])
             if m["bad"] is not None and not failed:
-                ck.violation(f"recv-api/{m['api']}/{m['kind']}/over-limit-not-failed",
+                ck.violation(f"recv-api/{m['api']}/{c['role']}/over-limit-not-failed",
                              f"[{fw}] {m['api']} receive API: message {m['bad']} of sizes {m['sizes']} exceeds msg={c['max_msg']} frame={c['max_frame']} "
                              f"and the connection was not failed", {"fw": fw, "case": c, "observed": r, "grid": m}, found_input=True)
             if i % 4 == 0 and sum(len(x) for x in c["chunks"]) <= 2400:
@@ -429,52 +520,10 @@ def run(ck):
         ck.note_cases(0, (json.dumps([fw, "send", c["role"], c["pmc"], c["max_msg"], [(o["api"], o["dnc"], o["fragment"], o["len"], o["kind"]) for o in c["sends"]]])
                           for c in sa_cases))
         for c, r, m in zip(sa_cases, sa_res, sa_meta):
-            L, S = m["L"], r["sends"]
-            rep = {"fw": fw, "case": c, "observed": {"sends": {"ops": [dict(o, payload=o["payload"][:32] + "...") for o in S["ops"]],
-                                                               "peer": [[p[0][:32] + "...", len(p[0]) // 2, p[1]] for p in S["peer"]],
-                                                               "peer_error": S["peer_error"]}, "state": r["state"]}}
-            want_peer, refused_before, op_bad = [], [], False
-            for j, (o, got) in enumerate(zip(c["sends"], S["ops"])):
-                over = o["kind"] == "noise" or (o["len"] > L and (not c["pmc"] or o["dnc"]))
-                fn = "sendMessage" if o["api"] == "message" else "sendPreparedMessage"
-                path = "plain" if not c["pmc"] else ("pmc+doNotCompress" if o["dnc"] else "pmc")
-                ck.bump(f"send-api:{fn}:{path}:{'over' if over else 'within'}")
-                what = None
-                if over and got["raised"] is None:
-                    what = "over-limit-not-refused"
-                elif over and got["wrote"]:
-                    what = "refused-but-wrote"
-                elif got["raised"] == "PayloadExceededError" and not over:
-                    what = "legal-refused"
-                elif got["raised"] is not None and got["raised"] != "PayloadExceededError":
-                    what = "raised-" + got["raised"]
-                elif not over and not got["wrote"]:
-                    what = "legal-not-written"
-                if what:
-                    op_bad = True
-                    ck.violation(f"send-api/{fn}/{path}/{what}",
-                                 f"[{fw}] {c['role']}, maxMessagePayloadSize={L}, permessage-deflate {'on' if c['pmc'] else 'off'}: operation {j} "
-                                 f"{fn}({o['len']} octets, {o['kind']}{', doNotCompress' if o['dnc'] else ''}{', fragmentSize=%d' % o['fragment'] if o['fragment'] else ''}) "
-                                 f"-> raised {got['raised']}, wrote {got['wrote']} octets (compressor output {got['comp_len']})", rep, found_input=True)
-                if over:
-                    refused_before.append((j, fn, path))
-                else:
-                    want_peer.append((got["payload"], bool(o["binary"]), j, len(refused_before)))
-            if not op_bad:
-                got_peer = [(p[0], bool(p[1])) for p in S["peer"]]
-                k = next((k for k, (w, g) in enumerate(zip(want_peer, got_peer)) if (w[0], w[1]) != g), min(len(want_peer), len(got_peer)))
-                if S["peer_error"] or len(got_peer) != len(want_peer) or k < len(want_peer):
-                    nref = want_peer[k][3] if k < len(want_peer) else len(refused_before)
-                    if nref:
-                        _, fn, path = refused_before[nref - 1]
-                        key = f"send-api/{fn}/{path}/peer-cannot-read-after-refusal"
-                    else:
-                        key = f"send-api/{m['fn']}/{m['path']}/peer-reads-wrong"
-                    ck.violation(key, f"[{fw}] {c['role']}, maxMessagePayloadSize={L}, permessage-deflate {'on' if c['pmc'] else 'off'}: the peer (independent "
-                                 f"frame parser + one real zlib inflater for the connection) reads {len(got_peer)} message(s) of the {len(want_peer)} accepted ones; "
-                                 f"the first {k} are right, then: {S['peer_error'] or 'a different payload'}"
-                                 + (f" -- right after operation {refused_before[nref - 1][0]} was refused with PayloadExceededError" if nref else ""),
-                                 rep, found_input=True)
+            for o in c["sends"]:
+                ck.bump(f"send-api:{send_fn(o)}:{send_path(c, o)}:{'over' if send_over(c, o) else 'within'}")
+            for key, what in judge_sends(fw, c, r):
+                ck.violation(key, what, {"fw": fw, "case": c, "observed": brief_sends(r)}, found_input=True)
             send_model.append((fw, c, r))
         # frame-wise sending (beginMessage / sendMessageFrame / endMessage) has no message size to compare: observed only
         fr = ck.run_impl("ws_recv.py", {"fw": fw, "cases": [dict(BASE, role="server", max_msg=60, chunks=[], nolost=True,
@@ -570,7 +619,22 @@ def replay(path):
         print("no concrete case stored:", json.dumps(r)[:2000])
         return 1
     fw = r.get("fw", "tx")
+    if "config_calls" in case:
+        return base.replay_config(ck, fw, case)
     res = base.run_cases(ck, fw, [case])[0]
+    if "sends" in case:
+        print("case          :", json.dumps(case)[:3000])
+        for o, g in zip(case["sends"], res["sends"]["ops"]):
+            print(f"  {send_fn(o)}({o['len']} octets, {o['kind']}, doNotCompress={o['dnc']}, fragmentSize={o['fragment']}) [{send_path(case, o)}] "
+                  f"{'OVER the limit' if send_over(case, o) else 'within the limit'}: raised {g['raised']}, wrote {g['wrote']} octets, "
+                  f"compressor output {g['comp_len']}")
+        print("peer reads    :", [(len(p[0]) // 2, p[1]) for p in res["sends"]["peer"]], "error:", res["sends"]["peer_error"])
+        probs = judge_sends(fw, case, res)
+        print("oracle verdict:", probs or "conforms")
+        vlib.coq_make(["Model/WsSendGuardRun.vo"])
+        vals = ck.coq_eval(SEND_IMPORTS, ["send_case_ok " + send_term(case, res)])
+        print("Gallina send model agrees with implementation:", vals[0])
+        return int(bool(probs) or "true" not in vals[0])
     print("case          :", json.dumps(case)[:3000])
     print("implementation:", json.dumps({k: v for k, v in res.items() if k != "tape"})[:3000])
     bad = 0
